@@ -12,9 +12,13 @@
       not) and every sequence of subsequent creations returns the same handles in both worlds
       (whatever the free-list shape); a world that holds or has held entities since its last
       Reset rejects every dump, and there is no other failure.
-    The rebuilding of the entity index / component-less table by LoadEntities is covered by the
-    Go-side twin-world oracle (harness/codec), not by a theorem. *)
-From Ark Require Import Model.Base Model.Pool Model.Codec Model.DumpLoad Proofs.CodecProofs Proofs.DumpLoadProofs.
+    - world level (Model/DumpLoadW.v): LoadEntities rejected on locked / used worlds, accepted on
+      new or reset ones; the loaded world has the dumped pool, one row of the component-less
+      table per alive entity, a fresh index and target flags, and is otherwise untouched.
+    Not proved: that every index entry of an alive entity points at its row (shown on the
+    example, compared on every run by the correspondence, and checked on the implementation by
+    the twin-world oracle, which queries and keeps using the loaded worlds). *)
+From Ark Require Import Model.Base Model.Pool Model.Codec Model.Mask Model.World Model.Run Model.DumpLoad Model.DumpLoadW Proofs.CodecProofs Proofs.DumpLoadProofs Proofs.DumpLoadWProofs.
 
 Theorem C17_bin_roundtrip :
   forall id gen, (id < u32_bound)%N -> (gen < u32_bound)%N ->
@@ -87,6 +91,86 @@ Example C17_dumpload_example :
   dumpload_case [2; 3; 0;0; 0;0; 1;0;  0;0; 0;0]%Z = [1; 1; 0; 1; 2; 1; 4; 0]%Z.
 Proof. vm_compute. reflexivity. Qed.
 
+(** ** World level (Model/DumpLoadW.v: the whole EntityDump with its Alive list, and
+    LoadEntities with lock check, pool guard, rebuilt entity index, target flags and
+    component-less table; tied to the code by the world dump/load cases of the codec
+    correspondence, which compare the full internal dump of the loaded world). *)
+
+(** LoadEntities is rejected on a locked world and on a world that holds or has held entities. *)
+Theorem C17_world_load_rejected : forall d t,
+  is_locked t = true \/ reserved < length (pe (w_pool t)) \/ 0 < pavail (w_pool t) ->
+  w_load_entities d t = None.
+Proof. exact w_load_rejected. Qed.
+
+(** It is accepted by every unlocked new or reset world, for the dump of every state whose
+    Alive list is well formed ([alive_ok]: every listed ID names a pool slot holding that ID -
+    part of the storage invariant of C01; not re-derived here, hence stated as a hypothesis;
+    [C17_world_example] shows a reached state that meets it). *)
+Theorem C17_world_load_succeeds : forall s t,
+  alive_ok s -> has_reserved (w_pool s) ->
+  is_locked t = false -> length (pe (w_pool t)) <= reserved -> pavail (w_pool t) = 0 ->
+  nth_error (w_tables t) 0 <> None ->
+  w_load_entities (w_dump_entities s) t <> None.
+Proof. exact w_load_succeeds. Qed.
+
+(** The loaded world: the dumped pool (so Alive and all later creations agree with the source),
+    one new row in the component-less table per alive entity, index and target flags of the
+    dump's capacity, and nothing else changed (archetypes, registry, lock, cache, observers,
+    filters, resources, configuration). *)
+Theorem C17_world_load_result : forall s t t',
+  has_reserved (w_pool s) ->
+  w_load_entities (w_dump_entities s) t = Some t' ->
+  w_pool t' = w_pool s /\
+  length (w_index t') = length (pe (w_pool s)) /\
+  w_istarget t' = repeat false (length (pe (w_pool s))) /\
+  (exists t0 t1, nth_error (w_tables t) 0 = Some t0 /\ nth_error (w_tables t') 0 = Some t1 /\
+                 t_len t1 = t_len t0 + length (alive_ids s)) /\
+  w_archs t' = w_archs t /\ w_reg t' = w_reg t /\ w_lock t' = w_lock t /\
+  w_centries t' = w_centries t /\ w_obs t' = w_obs t /\ w_olists t' = w_olists t /\
+  w_filters t' = w_filters t /\ w_res t' = w_res t /\ w_cfg t' = w_cfg t.
+Proof. exact w_load_result. Qed.
+
+Theorem C17_world_load_alive : forall s t t' h,
+  has_reserved (w_pool s) -> w_load_entities (w_dump_entities s) t = Some t' ->
+  alive t' h = alive s h.
+Proof. exact w_load_alive. Qed.
+
+Theorem C17_world_load_future : forall s t t' n,
+  has_reserved (w_pool s) -> w_load_entities (w_dump_entities s) t = Some t' ->
+  pgets n (w_pool t') = pgets n (w_pool s).
+Proof. exact w_load_future. Qed.
+
+(** Non-vacuity: a world reached by a script (two component types, one a relation; seven
+    creations and two removals, one slot recycled) meets the hypotheses; its dump is accepted by
+    a new world; the four alive entities sit in rows 0-3 of table 0 and are indexed there;
+    the next creations re-use the free slot, then grow the pool. *)
+Definition ex_cfg : list Z := [2; 1; 256; 0; 2; 0; 7]%Z.
+Definition ex_ops : list (list Z) :=
+  [[0]; [0]; [1; 1; 0]; [0]; [11; 1]; [1; 1; 0]; [0]; [11; 0]]%Z.
+Definition ex_new : W :=
+  match decode_cfg ex_cfg with
+  | Some c => init_world c
+  | None => init_world {| sc_cap := 1; sc_caprel := 1; sc_bits := 256; sc_debug := false; sc_kinds := [] |}
+  end.
+Definition ex_src : W := final_state false ex_new ex_ops.
+
+Example C17_world_example :
+  alive_ok ex_src /\ has_reserved (w_pool ex_src) /\ alive_ids ex_src = [6; 5; 4; 3] /\
+  match w_load_entities (w_dump_entities ex_src) ex_new with
+  | Some t' =>
+      map (alive t') (w_issued ex_src) = [false; false; true; true; true; true] /\
+      map (alive ex_src) (w_issued ex_src) = [false; false; true; true; true; true] /\
+      w_index t' = [(Some 0, 0); (Some 0, 0); (Some 0, 0); (Some 0, 3); (Some 0, 2); (Some 0, 1); (Some 0, 0)] /\
+      option_map t_len (nth_error (w_tables t') 0) = Some 4 /\
+      pgets 3 (w_pool t') = [(2, 1%N); (7, 0%N); (8, 0%N)]
+  | None => False
+  end.
+Proof.
+  split; [unfold alive_ok; vm_compute; repeat constructor; eexists; reflexivity|].
+  split; [unfold has_reserved; vm_compute; repeat constructor|].
+  vm_compute; repeat split; reflexivity.
+Qed.
+
 Example C17_example :
   unmarshal_bin (marshal_bin 4294967295 65536) = Some (4294967295%N, 65536%N) /\
   marshal_json 70000 3 = [91; 55; 48; 48; 48; 48; 44; 51; 93]%N /\
@@ -94,5 +178,5 @@ Example C17_example :
 Proof. vm_compute. repeat split; reflexivity. Qed.
 
 (** One traversal of the dependency graph for all theorems of this file. *)
-Definition C17_all := (C17_bin_roundtrip, C17_bin_shape, C17_bin_reject, C17_bin_bijective, C17_bin_append, C17_json_roundtrip, C17_scripts_reserved, C17_load_fresh_or_reset, C17_load_dump_alive, C17_load_dump_future, C17_load_rejected_iff).
+Definition C17_all := (C17_bin_roundtrip, C17_bin_shape, C17_bin_reject, C17_bin_bijective, C17_bin_append, C17_json_roundtrip, C17_scripts_reserved, C17_load_fresh_or_reset, C17_load_dump_alive, C17_load_dump_future, C17_load_rejected_iff, C17_world_load_rejected, C17_world_load_succeeds, C17_world_load_result, C17_world_load_alive, C17_world_load_future).
 Print Assumptions C17_all.
